@@ -20,4 +20,9 @@ LEVEL["C14"] = {
     "design_ref": "DESIGN.md 4/C14", "note": _NOTE, "technique": "Lean 4 proof (round-trip laws by structural induction) + model/implementation correspondence check",
 }
 
+LEVEL["C16"] = {
+    "text": "Lean theorems over the symbol-trie model: invariant of the table after any registration list, and C16_next_is_longest — for all registration lists (any order, shared prefixes, re-registration) and all inputs the symbol state returns the longest registered prefix (or one character) with the type of its latest registration and consumes exactly that many characters; later registrations never change existing symbols. Tied to SymbolRootNode by exhaustive small-scope and random differential runs with repeated reads.",
+    "design_ref": "DESIGN.md 4/C16", "note": _NOTE, "technique": "Lean 4 proof (data-structure invariant by induction over registrations + longest-match characterisation) + correspondence check",
+}
+
 NOT_APPLICABLE = {}
